@@ -48,7 +48,7 @@ impl Check for C17 {
         ]
     }
     fn required_classes(&self, _t: Tier) -> Vec<&'static str> {
-        vec!["dim:1", "dim:2", "op:err", "op:panic", "op:ok", "threads:2-4", "threads:5-16", "history:fail-then-ok", "strat:Linear", "strat:Spline/Periodic", "strat:Spline/Individual"]
+        vec!["dim:1", "dim:2", "op:err", "op:panic", "op:ok", "threads:2-4", "threads:5-16", "history:fail-then-ok", "strat:Linear", "strat:Spline/Periodic", "strat:Spline/Individual", "axis:long(65..400)"]
     }
 }
 
@@ -137,7 +137,18 @@ fn run<T: Flt>(src: &mut Src, obs: &mut Obs, two_d: bool) -> Result<(), Fail> {
         None
     } else {
         let o = Opts1 { max_lanes: 4, max_n_linear: 10, spline: crate::splinegen::SplineOpts { max_n: 10, ..Default::default() }, ..Opts1::default() };
-        Some(Case1::gen::<T>(src, &o))
+        let mut c = Case1::gen::<T>(src, &o);
+        // long axes (state such as a cached search position may only matter beyond some length)
+        if matches!(c.strat, StratSel::Linear) && src.chance(1, 6) {
+            let n = src.usize_in(65, 400);
+            let cls = axis_class(src);
+            c.x = axis::<T>(src, n, cls, None);
+            c.axis_class = cls;
+            c.n = n;
+            c.data = values::<T>(src, n * c.lanes, ValClass::Dyadic, 0);
+            obs.class("axis:long(65..400)");
+        }
+        Some(c)
     };
     let g2 = if two_d { Some(Grid::gen::<T>(src, 1)) } else { None };
     let (trailing, scalar_ok, xs, ys): (Vec<usize>, bool, Vec<f64>, Vec<f64>) = match (&c1, &g2) {
